@@ -9,7 +9,7 @@
      dry_model q W k files the model of src/linters/dry built from Gen/DryGen.v under quirk vector q
    Domain: 1 <= W (min_duplicate_lines; the correspondence check uses W >= 2), 2 <= k (min_occurrences). *)
 From TL Require Import Lib.Base Lib.GenTypes Model.DryBase Model.DryPipe Gen.DryGen Model.Dry Model.DrySpec
-     Model.DryRun Model.DryWitness Actual.DryActual Proofs.DryGreedy Proofs.DryStageB Proofs.DryStageA Proofs.DryMain Proofs.DryMsg Proofs.DryOracle.
+     Model.DryRun Model.DryWitness Actual.DryActual Proofs.DryGreedy Proofs.DryStageB Proofs.DryStageA Proofs.DryMain Proofs.DryMsg Proofs.DryOracle Proofs.DrySupp Model.DryFilter Proofs.DryFilterP.
 
 (* 0. With the two text flags off the model built from the source IS the reference pipeline: exact equality of the
       reported list, for all projects and all W, k - whether the overlap test of the violation filter is the
@@ -139,6 +139,110 @@ Print Assumptions C03_oracle_count_clause.
 Theorem C03_oracle_complete_clause : forall rows k R, rows_ok rows -> 2 <= k -> complete_b rows k R = true -> complete rows k R.
 Proof. exact complete_b_complete. Qed.
 Print Assumptions C03_oracle_complete_clause.
+
+(* 13. Suppression ("... unless it is suppressed").  The reported list is the de-duplicated report minus the
+       violations that a dry.ignore path pattern or a directive silences (dry_final); with the text flags off /
+       outside their defect classes it equals the reference (ref_final), and for every project, pattern list, W, k:
+       what is reported is sound and exactly counted, nothing suppressed is reported, every named location and every
+       place of a reportable block is covered by a reported violation or is excused by a suppression (a stored window
+       meeting it is suppressed). *)
+Theorem C03_final_is_reference : forall q W k pats paths files, lines_ok q files ->
+  dry_final q W k pats paths files = ref_final W k pats paths files.
+Proof. exact final_eq_ref. Qed.
+Print Assumptions C03_final_is_reference.
+Theorem C03_with_suppression : forall q W k pats paths files, 1 <= W -> 2 <= k -> lines_ok q files ->
+  let R := dry_final q W k pats paths files in
+  sound files W R /\ mutual_s pats paths files (ref_rows W files) R /\ complete_s pats paths files (ref_rows W files) k R
+  /\ (forall v, In v R -> count_ok (ref_rows W files) v) /\ silent pats paths files R.
+Proof. exact dry_final_property. Qed.
+Print Assumptions C03_with_suppression.
+(* the same for any well-formed list of stored rows (block filters) *)
+Theorem C03_filtered_mutual_unless_suppressed : forall k rows pats paths files, rows_ok rows -> 2 <= k ->
+  mutual_s pats paths files rows (unsuppressed ref_sparams pats paths files (report ref_bparams k rows)).
+Proof. exact supp_mutual. Qed.
+Print Assumptions C03_filtered_mutual_unless_suppressed.
+Theorem C03_filtered_complete_unless_suppressed : forall k rows pats paths files, rows_ok rows -> 2 <= k ->
+  complete_s pats paths files rows k (unsuppressed ref_sparams pats paths files (report ref_bparams k rows)).
+Proof. exact supp_complete. Qed.
+Print Assumptions C03_filtered_complete_unless_suppressed.
+
+(* 14. What each form silences (line numbers of file_dirs are 1-based source lines), and that nothing is removed
+       when no pattern is configured and no directive line exists. *)
+Theorem C03_ignore_file_silences : forall f i e line count, In (i, KFile, e) (file_dirs f) -> i <= 10 ->
+  suppressed_in_file ref_sparams f line count = true.
+Proof. exact ignore_file_silences. Qed.
+Print Assumptions C03_ignore_file_silences.
+Theorem C03_ignore_line_silences : forall f e line count, In (line, KLine, e) (file_dirs f) -> suppressed_in_file ref_sparams f line count = true.
+Proof. exact ignore_line_silences. Qed.
+Print Assumptions C03_ignore_line_silences.
+Theorem C03_ignore_next_line_silences : forall f e line count, 1 < line -> In (line - 1, KNextLine, e) (file_dirs f) ->
+  suppressed_in_file ref_sparams f line count = true.
+Proof. exact ignore_next_line_silences. Qed.
+Print Assumptions C03_ignore_next_line_silences.
+Theorem C03_dry_block_silences : forall f i e line count, In (i, KDryBlock, e) (file_dirs f) ->
+  line <= Nat.min (i + 10) (total_lines f) -> i + 1 <= line + count - 1 -> suppressed_in_file ref_sparams f line count = true.
+Proof. exact dry_block_silences. Qed.
+Print Assumptions C03_dry_block_silences.
+Theorem C03_pattern_silences : forall pats paths files fi line count p,
+  In p pats -> str_contains p (nth fi paths "") = true -> ref_suppressed pats paths files fi line count = true.
+Proof. exact pattern_silences. Qed.
+Print Assumptions C03_pattern_silences.
+Theorem C03_no_suppression : forall paths files R, (forall f, In f files -> file_dirs f = []) -> unsuppressed ref_sparams [] paths files R = R.
+Proof. exact no_suppression. Qed.
+Print Assumptions C03_no_suppression.
+
+(* 15. Literals of the suppression code, and the remaining executable clauses of the judge are sound checkers
+       (rows_okb: the hypothesis rows_ok of the stored-rows theorems is CHECKED on the rows the implementation stored). *)
+Theorem C03_suppression_literals :
+  dry_ignore_block_off = 1 /\ dry_ignore_block_len = 10 /\ dry_ignore_next_off = 1 /\ dry_header_scan_lines = 10
+  /\ (forall line e s1 e1, dry_range_overlap line e s1 e1 = (line <=? e1) && (s1 <=? e))
+  /\ (forall s c, dry_inline_end s c = s + c - 1)
+  /\ dry_ignore_block_re = "#\s*dry:\s*ignore-block" /\ dry_ignore_next_re = "#\s*dry:\s*ignore-next".
+Proof. exact gen_suppression. Qed.
+Print Assumptions C03_suppression_literals.
+Theorem C03_oracle_rows_ok : forall rows, rows_okb rows = true -> rows_ok rows.
+Proof. exact rows_okb_ok. Qed.
+Print Assumptions C03_oracle_rows_ok.
+Theorem C03_oracle_mutual_unless_suppressed : forall pats paths files rows R,
+  mutual_sb pats paths files rows R = true -> mutual_s pats paths files rows R.
+Proof. exact mutual_sb_sound. Qed.
+Print Assumptions C03_oracle_mutual_unless_suppressed.
+Theorem C03_oracle_complete_unless_suppressed : forall pats paths files rows k R, rows_ok rows -> 2 <= k ->
+  complete_sb pats paths files rows k R = true -> complete_s pats paths files rows k R.
+Proof. exact complete_sb_sound. Qed.
+Print Assumptions C03_oracle_complete_unless_suppressed.
+Theorem C03_oracle_silent : forall pats paths files R, silent_b pats paths files R = true -> silent pats paths files R.
+Proof. exact silent_b_sound. Qed.
+Print Assumptions C03_oracle_silent.
+
+(* 16. One block filter inside the model: KeywordArgumentFilter (block_filter.py).  The filter built from the source's
+       literals is the documented one; it drops a window only when the window's line range is non-empty, lies inside
+       a multi-line call and at least 4 of every 5 of its lines have the shape `name = value`; a line accepted by the
+       matcher has that shape; and whatever any filter removes, the remaining stored rows are well formed, so the
+       stored-rows theorems (7, 13) apply to them.  (The model's answers are compared with the real should_filter on
+       the windows of generated Python files on every run.) *)
+Theorem C03_kwarg_filter_is_documented : forall raw calls s e, model_kwarg_filter raw calls s e = kwarg_filter_ref raw calls s e.
+Proof. exact model_kwarg_filter_is_ref. Qed.
+Print Assumptions C03_kwarg_filter_is_documented.
+Theorem C03_kwarg_filter_sound : forall raw calls s e, kwarg_filter_ref raw calls s e = true ->
+  slice_lines raw s e <> [] /\
+  4 * List.length (slice_lines raw s e) <= 5 * List.length (filter kwarg_line (slice_lines raw s e)) /\
+  exists a b, In (a, b) calls /\ a < b /\ a <= s /\ e <= b.
+Proof. exact kwarg_filter_sound. Qed.
+Print Assumptions C03_kwarg_filter_sound.
+Theorem C03_kwarg_line_shape : forall s, kwarg_line s = true ->
+  exists w1 name w2 rest, all_ws w1 /\ all_word name /\ name <> EmptyString /\ all_ws w2 /\ rest <> EmptyString /\
+                          s = (w1 ++ name ++ w2 ++ String "=" rest)%string.
+Proof. exact kwarg_line_shape. Qed.
+Print Assumptions C03_kwarg_line_shape.
+Theorem C03_filtering_keeps_rows_ok : forall (p : row -> bool) rows, rows_ok rows -> rows_ok (filter p rows).
+Proof. exact rows_ok_filter. Qed.
+Print Assumptions C03_filtering_keeps_rows_ok.
+Theorem C03_kwarg_filter_literals : dry_kwarg_cmp = CGe /\ dry_kwarg_num = 4 /\ dry_kwarg_den = 5
+  /\ dry_kwarg_pattern = "^\s*\w+\s*=\s*.+,?\s*$"
+  /\ (forall a b s e, dry_call_contains a b s e = call_contains_ref a b s e).
+Proof. exact gen_kwarg_filter. Qed.
+Print Assumptions C03_kwarg_filter_literals.
 
 (* 12. Regression of the repaired finding q_overlap_asym (fix f9c5945): on its old witness the model under the vector
        claimed for the current tree now reports block Q of file 0 (lines 6-10) as well, equals the reference,
